@@ -353,8 +353,8 @@ PROPERTIES = {
     },
     "C05": {
         "level": "proof",
-        "claim": "PARTIAL, per function: every function / match arm under contract in this framework (operators, conversions, index functions, all 45 machine arms, call/return, the compiler arms and helpers listed in the evidence) is proved free of panics, arithmetic overflow, out-of-bounds access and non-termination under its stated precondition - Kani checks every unwrap / index / overflow / unimplemented! / debug_assert on the real code, Verus every overflow / index / unwrap precondition on the extracted text with panic! sites turned into `requires false` calls. The defects this exposed (13 panics / hangs on ordinary inputs) are repaired (known-findings.txt).",
-        "note": "NOT decided: totality of VM::run and compile_ast as whole loops (composition of the arm contracts), of the tokenizer and of the parser functions not under contract (if / call / array / block loops), the REPL's unwrap()s in src/bin. A panic in code outside the listed functions is not detected.",
+        "claim": "PARTIAL, per function: every function / match arm under contract in this framework (operators, conversions, index functions, all 45 machine arms, call/return, the compiler arms and helpers listed in the evidence) is proved free of panics, arithmetic overflow, out-of-bounds access and non-termination under its stated precondition - Kani checks every unwrap / index / overflow / unimplemented! / debug_assert on the real code, Verus every overflow / index / unwrap precondition on the extracted text with panic! sites turned into `requires false` calls. The symbol table (src/symbols.rs) is under contract on its real structs: every unwrap() there is reached only under a precondition the compiler is proved to establish at every call site (sym_wf in the generator invariant, kept on error exits), and declaring a name is total for every symbol count. The defects all this exposed (panics, hangs, reads below the stack on ordinary inputs) are repaired (27 fix commits, known-findings.txt).",
+        "note": "NOT decided: totality of VM::run as a whole loop (composition of the arm contracts; the compile side is composed: O02.ind), termination of the recursive generators (structural), of the tokenizer and of the parser functions not under contract (if / call / array / block loops), the REPL's unwrap()s in src/bin. A panic in code outside the listed functions is not detected.",
         "design_ref": "DESIGN.md 3.10",
         "undecided": ["Tokenizer, parser functions not under contract, Context::resolve beyond its bound, std formatting/parsing paths of the builtins", "whole-loop totality of VM::run / compile_ast (composition)", "src/bin/nederlang.rs"],
         "assumptions": ["arm preconditions (compile-side half of C02)"],
@@ -385,8 +385,8 @@ PROPERTIES = {
     },
     "C10": {
         "level": "proof",
-        "claim": "The compiler's choice between a fused variable-op-constant instruction and the generic sequence is proved meaning-preserving per function (Verus, verbatim bodies of mirror_operator, compile_const_var_infix_expression, compile_operator and the Expr::Infix arm): a fused opcode is emitted only with the operator's meaning for `x op c` or the mirrored meaning for `c op x`; the machine arms compute exactly the tabled meaning on (local, constant) / (lower, top) (unit c02_arms); the mirror laws are a lemma (lemma_mirror, same unit) over the integer contracts of C06 (O06.1/O06.2/O06.3: each operator IS the mathematical operator); the constant pool never changes an existing entry (Kani, bounded); Get/SetGlobal and Get/SetLocal arms have the same load/store contract.",
-        "note": "Trusted: Verus/Z3, Kani/CBMC, extraction rules R1,R1p,R4; helper contracts emit_* (O02.emit). Assumed: Infix nodes carry a binary operator (parser guarantee). NOT decided: equivalence of whole programs under the four transformations (relational; needs the compile-side half of C02).",
+        "claim": "The compiler's choice between a fused variable-op-constant instruction and the generic sequence is proved meaning-preserving per function (Verus, verbatim bodies of mirror_operator, compile_const_var_infix_expression, compile_operator and the Expr::Infix arm): a fused opcode is emitted only with the operator's meaning for `x op c` or the mirrored meaning for `c op x`; the machine arms compute exactly the tabled meaning on (local, constant) / (lower, top) (unit c02_arms); the mirror laws are a lemma (lemma_mirror, unit c10_mirror) over the integer contracts of C06 (O06.1/O06.2/O06.3: each operator IS the mathematical operator); the constant pool never changes an existing entry (Kani, bounded); Get/SetGlobal and Get/SetLocal arms have the same load/store contract.",
+        "note": "Trusted: Verus/Z3, Kani/CBMC, extraction rules R1,R1p,R4; helper contracts emit_* (O02.emit). Infix nodes carry a binary operator: proved of the two parser functions that build them (O07.2a, O07.3). NOT decided: equivalence of whole programs under the four transformations (relational; needs the compile-side half of C02).",
         "design_ref": "DESIGN.md 3.7",
         "undecided": ["whole-program equivalence under globals<->locals / literal<->variable / mirroring / constant-pool shifts (composition)"],
         "assumptions": ["every Infix node carries a binary operator (precondition of arm_infix / O02.ind): proved of the two places that build Infix nodes (O07.2a, O07.3); that there is no third place is by reading"],
@@ -394,7 +394,7 @@ PROPERTIES = {
     "C12": {
         "level": "proof",
         "claim": "Per-arm contracts, verified by Verus on the arms of VM::run sliced verbatim from src/vm.rs for stacks / frame stacks of EVERY size: Call binds arguments by position in a fresh activation whose other slots are null and leaves everything below the base untouched; Return/ReturnValue hand back exactly the caller's stack plus the result and restore the caller's ip/bp. Function descriptors round-trip for all (u32,u16) (Kani).",
-        "note": "Trusted: Verus/Z3; helper contracts read_u8/pop (proved by Kani on the real methods, bounded code/stack size), extraction rules R1,R2,R3,R4,R7,R10. The compiler's call-site arm (arguments left to right, then the callee, argc == count) is proved too (unit c12_callsite). The Expr::Function arm (unit c02_blocks) proves the body is jumped over, always ends in a return instruction, runs in a fresh context and that the descriptor's entry point is the body's first byte. NOT decided: the composition over whole programs (recursion depth, nested calls) - argued from the arm contracts, not verified.",
+        "note": "Trusted: Verus/Z3; helper contracts read_u8/pop (proved by Kani on the real methods, bounded code/stack size), extraction rules R1,R2,R3,R4,R7,R10. The compiler's call-site arm (arguments left to right, then the callee, argc == count) is proved too (unit c12_callsite). The Expr::Function arm (unit c02_blocks) proves the body is jumped over, always ends in a return instruction, runs in a fresh context and that the descriptor's entry point is the body's first byte. The number of slots a call reserves is the context size the symbol table reports (every declaration counts: O05.sym; leave_context hands out that number: unit c09_names). NOT decided: the composition over whole programs (recursion depth, nested calls) - argued from the arm contracts, not verified.",
         "design_ref": "DESIGN.md 3.6",
         "undecided": ["composition of arm contracts over all call sequences (step lemma)"],
         "assumptions": ["arm preconditions (operands on the stack, operand bytes inside the code) hold at every step: the compile-side half of C02"],
